@@ -1,4 +1,4 @@
-//! Seeded PRNG: splitmix64 seeding into xoshiro256**. One integer decides everything.
+// Seeded PRNG: splitmix64 seeding into xoshiro256**. One integer decides everything.
 
 #[derive(Clone, Debug)]
 pub struct Rng {
